@@ -185,6 +185,9 @@ ATTR_CONST = {"shape", "ndim", "size", "dtype", "n_vertices", "n_edges", "n_side
 # known 2-d array attributes of Edges / Vertices (used only to decide basic vs advanced indexing)
 ATTR_ARRAY2 = {"indices", "positions", "crossing", "vectors"}
 ATTR_SCALAR = {"n_vertices", "n_edges", "n_plaquettes", "n_sides"}
+# attributes that are numeric ndarrays with at most 2 dimensions: `for a, b in X` over such an array binds a, b to
+# numpy SCALARS (immutable copies of the entries), not to views — they carry no aliasing
+ATTR_NUMERIC_LE2 = ATTR_ARRAY2 | {"adjacent_plaquettes", "coordination_numbers", "directions"}
 # functions whose result is certainly an ndarray/list (=> used as an index it is ADVANCED indexing => copy)
 ARRAY_RESULT = set("numpy." + n for n in """array zeros ones full zeros_like ones_like arange where nonzero argwhere argsort
     sort unique concatenate delete cumsum tile roll isfinite logical_and logical_or logical_not""".split())
@@ -1068,11 +1071,28 @@ class FT3(FT2):
                 comps = [view(self.ex(a)) for a in it_node.args]
             elif it_node.func.id == "enumerate" and len(t.elts) == 2 and len(it_node.args) == 1:
                 comps = [CONST, view(self.ex(it_node.args[0]))]
+        if comps is None and isinstance(t, (ast.Tuple, ast.List)) and all(isinstance(a, ast.Name) for a in t.elts) \
+                and self.numeric_le2(it_node):
+            # rows of a numeric array of <= 2 dimensions unpacked into names: immutable scalars
+            self.note(f"line {it_node.lineno}: `for {ast.unparse(t)} in {ast.unparse(it_node)[:40]}`: entries of a numeric array (<= 2-d) unpacked into names are scalars (no aliasing)")
+            for a in t.elts:
+                self.assign_target(a, CONST, comp)
+            return
         if comps is not None:
             for a, d in zip(t.elts, comps):
                 self.assign_target(a, d, comp, unpack=True)
         else:
             self.assign_target(t, view(it), comp, unpack=False)
+
+    def numeric_le2(self, e, depth=0):
+        if depth > 4:
+            return False
+        if isinstance(e, ast.Attribute):
+            return e.attr in ATTR_NUMERIC_LE2 and not self.dotted(e)
+        if isinstance(e, ast.Name) and self.is_local(e.id):
+            a = self.assigned.get(e.id, [])
+            return bool(a) and all(x[0] == "expr" and self.numeric_le2(x[1], depth + 1) for x in a)
+        return False
 
     def target_var(self, name, comp):
         if comp:
